@@ -96,6 +96,12 @@ def rand_table(r, nmax):
             if tb[k] and (k == "z" or r.random() < 0.7):
                 for i in range(a, b + 1):
                     tb[k][i] = NA
+    if r.random() < 0.2:
+        # observations that are missing (NaN in the arrays the front ends carry; masked for QcConfig.run)
+        for k in ("a", "b"):
+            if r.random() < 0.7:
+                for i in r.sample(range(n), min(n, r.choice([1, 1, 2]))):
+                    tb["data"][k][i] = NA
     if r.random() < 0.12:
         tb["hastime"] = False        # the stream gets no time array: no windows possible
     elif n >= 2 and r.random() < 0.3:
@@ -164,6 +170,19 @@ def rand_config(r, tb, faults):
             keys.add(k)
             ents.append(e)
         cfg.append({"win": w, "entries": ents})
+    if len(cfg) >= 2 and r.random() < 0.2:
+        # the first window once more at the end, with other entries (W1, W2, W1): contexts with the same window are one
+        # context, wherever they stand in the list
+        keys = {(x["stream"], x["fn"]) for x in cfg[0]["entries"]}
+        extra = []
+        for _ in range(3):
+            e = r.choice(POOL_H)(r)
+            if (e["stream"], e["fn"]) not in keys and not (e["fn"] == "roc" and not increasing(tb)):
+                prev = [x for c in cfg for x in c["entries"] if (x["stream"], x["fn"]) == (e["stream"], e["fn"])]
+                extra.append(copy.deepcopy(prev[0]) if prev and not unhealthy(tb, prev[0]) else e)
+                keys.add((e["stream"], e["fn"]))
+        if extra:
+            cfg.append({"win": list(cfg[0]["win"]), "entries": extra})
     return cfg
 
 
@@ -279,6 +298,19 @@ def check(ctx):
     for _ in range(ctx.pick(150, 1200)):
         tb = rand_table(g, ctx.pick(8, 14))
         cases.append((tb, rand_config(g, tb, faults=(prop == "C18" or g.random() < 0.25))))
+    # single-stream configurations over series with missing observations (what QcConfig.run is handed in practice)
+    want, tries = ctx.pick(40, 300), 0
+    while want > 0 and tries < 20000:
+        tries += 1
+        tb = rand_table(g, ctx.pick(8, 14))
+        cfg = rand_config(g, tb, faults=(prop == "C18"))
+        sids = {e["stream"] for c in cfg for e in c["entries"]}
+        if len(sids) == 1 and list(sids)[0] in tb["data"]:
+            col = tb["data"][list(sids)[0]]
+            for i in g.sample(range(len(col)), min(len(col), g.choice([1, 2]))):
+                col[i] = NA
+            cases.append((tb, cfg))
+            want -= 1
     for n, (tb, cfg) in enumerate(cases):
         fes = [f for f in fe_all if pipe_exec.applicable(f, tb, cfg)]
         if not tb.get("hastime", True):
@@ -296,6 +328,11 @@ def check(ctx):
         if not increasing(tb) and tb.get("hastime", True):
             # rows out of time order / repeated or missing time stamps: each family of front ends sees such a table
             for f in ("pandas", "xarray", "numpy_dict", "pandas_idx"):
+                if f in fe_all and pipe_exec.applicable(f, tb, cfg) and f not in fes:
+                    fes = fes + [f]
+        if any(v == NA for col in tb["data"].values() for v in col):
+            # missing observations: the single-stream wrapper gets them as a masked array (every other table) or as NaN
+            for f in ("qcconfig", "qcconfig_bare"):
                 if f in fe_all and pipe_exec.applicable(f, tb, cfg) and f not in fes:
                     fes = fes + [f]
         if prop == "C05" and n % 5 == 2:
